@@ -485,7 +485,7 @@ Section HM4.
     { destruct (Nat.eqb_spec (length (hbuckets m)) 0).
       - destruct Hinv as (ch & fl & I).
         destruct (hm_rehash_ok K V kdflt vdflt keqb khash keqb_refl keqb_sym keqb_trans HM_INIT_n m (KU_of_inv _ _ _ I) (inv_size _ _ _ _ _ _ _ I))
-          as [->|(m' & -> & I' & A & _ & B & _)]; [left; reflexivity|right].
+          as [(-> & _)|(m' & -> & I' & A & _ & B & _)]; [left; reflexivity|right].
         exists m'. pose proof hm_init_pos. split; [reflexivity|]. split; [assumption|]. split; [assumption|lia].
       - right. exists m. split; [reflexivity|]. split; [assumption|]. split; [reflexivity|lia]. }
     cbn [rbind].
@@ -512,7 +512,7 @@ Section HM4.
         set (m2 := mkhm K V bs2 ns2 (hsize m0 + 1) (nnext ndf)).
         destruct (hm_rehash_ok K V kdflt vdflt keqb khash keqb_refl keqb_sym keqb_trans
                     (ceilidiv ((hsize m0 + 1) * HM_GROW_n) HM_MAXLF_n) m2 U2 HS2)
-          as [->|(m3 & -> & I3 & A3 & S3 & _ & B3 & P3)]; [left; reflexivity|right].
+          as [(-> & _)|(m3 & -> & I3 & A3 & S3 & _ & B3 & P3)]; [left; reflexivity|right].
         cbn [rbind].
         assert (length (hnodes m2) <= length (hnodes m3)) as Hle.
         { destruct I3 as (ch3 & fl3 & I3). specialize (B3 ltac:(cbn; lia)).
